@@ -478,6 +478,12 @@ where
         };
         T::parse_from(res).map(Some).map_err(nb::Error::Other)
     }
+
+    /// Read-only snapshot of the decoder state (verification hook, coverage accounting only).
+    #[cfg(feature = "verif-hooks")]
+    pub fn verif_state(&self) -> transport::VerifDecoderState {
+        self.decoder.verif_state()
+    }
 }
 
 type DefaultBuffer = ArrayBuf<{ 8 * 1024 }>;
